@@ -88,7 +88,7 @@ def step (cfg : Cfg) (st : St) : List String → St × String
       | none => (st, "bad-op")
       | some s => (st, outStr hexOfBytes (finalize cfg.profile s.P s.n s.h))
     | none => (st, "bad-op")
-  | ["skein", "finreset", slot] =>
+  | ["skein", "finreset", slot] | ["skein", "finreset2", slot] =>
     match slot.toNat? with
     | some k =>
       match getSlot st.slots k with
